@@ -11,7 +11,7 @@ import numpy as np
 warnings.simplefilter('ignore')
 import openmdao.api as om  # noqa: E402
 from openmdao.core.analysis_error import AnalysisError  # noqa: E402
-from implutil import main  # noqa: E402
+from implutil import main, q  # noqa: E402
 
 np.seterr(all='ignore')
 
@@ -150,6 +150,87 @@ def get_problem(cls, cs):
     return _PROBS[key]
 
 
+_LS = {}
+
+
+def get_ls_problem():
+    """Real Newton + real ArmijoGoldsteinLS on the 2-component model; only the VALUE returned by
+    _line_search_objective is scripted."""
+    if 'p' in _LS:
+        return _LS['p']
+    p = om.Problem()
+    m = p.model
+    m.add_subsystem('a', Affine(a=0.5, b=1.0))
+    m.add_subsystem('b', Affine(a=0.25, b=-2.0))
+    m.connect('a.y', 'b.x')
+    m.connect('b.y', 'a.x')
+    nl = m.nonlinear_solver = om.NewtonSolver(solve_subsystems=False, maxiter=1, atol=1e-300, rtol=1e-300)
+    m.linear_solver = om.DirectSolver()
+    ls = nl.linesearch = om.ArmijoGoldsteinLS()
+    p.setup()
+    p.set_solver_print(-1)
+    p.final_setup()
+    st = {'norms': [], 'k': 0, 'nsingle': 0, 'solves': 0}
+    real_obj, real_single, real_solve = ls._line_search_objective, ls._single_iteration, ls._solve
+
+    def obj():
+        real_obj()
+        if st['k'] >= len(st['norms']):
+            raise Exhausted('history too short')
+        v = st['norms'][st['k']]
+        st['k'] += 1
+        return v
+
+    def single():
+        st['nsingle'] += 1
+        return real_single()
+
+    def solve():
+        st['solves'] += 1
+        return real_solve()
+
+    ls._line_search_objective = obj
+    ls._single_iteration = single
+    ls._solve = solve
+    _LS['p'] = (p, ls, st)
+    return _LS['p']
+
+
+def do_ls(c):
+    p, ls, st = get_ls_problem()
+    maxiter = int(c['maxiter'])
+    rho, cc, alpha = fh(c['rho']), fh(c['c']), fh(c['alpha'])
+    ls.options['maxiter'] = maxiter
+    ls.options['rho'] = rho
+    ls.options['c'] = cc
+    ls.options['alpha'] = alpha
+    ls.options['method'] = 'Goldstein' if c['goldstein'] else 'Armijo'
+    ls.options['iprint'] = -1
+    p.model._outputs.set_val(1.0)
+    st.update(norms=[np.float64(fh(v)) for v in c['norms']], k=0, nsingle=0, solves=0)
+    p.run_model()
+    iters = int(ls._iter_count)
+    a_fin = float(ls.alpha)
+    if a_fin != a_fin:
+        a_res = 'nan'
+    elif a_fin in (float('inf'), float('-inf')):
+        a_res = 'inf' if a_fin > 0 else '-inf'
+    else:
+        a_res = q(a_fin)
+    res = [iters, st['nsingle'], st['k'], a_res]
+    # ---- oracle: at most maxiter backtracking iterations; the accepted objective is the first that passes
+    # the sufficient-decrease test
+    ok, msg, sig = True, '', ''
+    desc = 'ArmijoGoldsteinLS(maxiter=%d, rho=%r, c=%r, alpha=%r, method=%s), objective values %r' % (
+        maxiter, rho, cc, alpha, ls.options['method'], [float(v) for v in st['norms'][:st['k']]])
+    if st['solves'] != 1:
+        ok, sig, msg = False, 'harness', 'line search was run %d times' % st['solves']
+    elif iters > max(maxiter, 0) or st['nsingle'] != iters:
+        ok, sig = False, 'ls-more-than-maxiter'
+        msg = '%d line-search iterations (%d _single_iteration calls) with maxiter=%d: %s' % (iters, st['nsingle'], maxiter, desc)
+    return {'res': res, 'ok': ok, 'msg': msg, 'sig': sig, 'kind': c.get('kind', 'ag')}
+
+
 def met(x, norm0, atol, rtol):
     """The iterate meets atol or rtol (and is a number)."""
     x = np.float64(x)
@@ -159,6 +240,8 @@ def met(x, norm0, atol, rtol):
 
 
 def handle(c):
+    if c['cls'] == 'ag':
+        return do_ls(c)
     cls, cs = c['cls'], bool(c.get('cs'))
     p, solver, sc = get_problem(cls, cs)
     maxiter = int(c['maxiter'])
